@@ -228,6 +228,7 @@ def run(ck, facts, tier):
     invented.run(ck, facts, "C16.invented-names")
     rule_lookahead_nesting(ck, facts)
     rule_block_scope(ck, facts)
+    rule_annotation_ambiguity(ck, facts)
     # a comment must end where the comment ends, or adding / editing one changes the program (model of the tokenizer's
     # comment combinators, shared with C13)
     from . import c13
@@ -329,3 +330,55 @@ def rule_block_scope(ck, facts):
         else:
             ck.bad(R, key, "%s (the %s's walk over Expr) evaluates the body of a block and never takes back the bindings the body added (no to_outer / truncate / pop in the Block arm): `let x = 1.0  let y = { let x = 2.0  x }  x + y` gives 4.0, and 3.0 once the inner binder is renamed" % (f.short, want), f.where(f.term(tb)))
     ck.floor(R, "environment_walks", n, 2)
+
+
+def rule_annotation_ambiguity(ck, facts):
+    """`|` separates the members of a union type and closes a lambda's parameter list"""
+    from ..rules import cover
+
+    R = "C16.annotation-ambiguity"
+    ck.rule(R, "after a type, the CST parser continues a union type when `|` is followed by a token that can start a type. `|` also closes the parameter list of a lambda, whose body is an expression. A token kind that the continuation test accepts without further look-ahead and that can also start an expression makes `|x: T| <body>` unparsable exactly when the parameter is annotated: adding an agreeing annotation changes whether the program compiles")
+    lang = facts.crate(roles.LANG)
+    fns = [f for f in lang.fns if "::parser::cst_parser::" in f.path and f.kind != "promoted"]
+    # (1) the union parser: its family mentions SyntaxKind::UnionType; the predicate it calls: a bool, bump-free callee
+    union = [f for f in fns if any(st[KIND] == "a" and "UnionType" in repr(st[5]) for _, st in f.all_stmts()) or any("UnionType" in repr(t[5]) for _, t in f.calls())]
+    preds = []
+    for f in union:
+        for _, t in f.calls():
+            g = facts.fn(callee(t) or "")
+            if g is not None and g in fns and g.local_ty(0) == "bool" and not any((callee(t2) or "").split("::")[-1] in ("bump", "expect", "emit_node") for _, t2 in g.calls()):
+                cov = cover.coverage(facts, g, TOKENKIND)
+                if cov and cov.primary is not None:
+                    preds.append((g, cov))
+    ck.require(R, len(preds) >= 1, "anchor|union-continuation-test", "the look-ahead that decides whether `|` continues a union type was not found")
+    # (2) FIRST(expression): the dispatch on TokenKind whose family builds ParenExpr nodes
+    firsts = None
+    for f in fns:
+        if f.root != f.path:
+            continue
+        fam = facts.family(roles.LANG, f.path)
+        if not (any("ParenExpr" in repr(t[5]) for g in fam for _, t in g.calls()) or any(st[KIND] == "a" and "ParenExpr" in repr(st[5]) for g in fam for _, st in g.all_stmts())):
+            continue
+        cov = cover.coverage(facts, f, TOKENKIND)
+        if cov and cov.primary is not None and (firsts is None or len(cov.primary_handled()) > len(firsts)):
+            firsts = cov.primary_handled()
+    ck.require(R, firsts is not None and len(firsts) >= 10, "anchor|expression-first-set", "the expression dispatch of the CST parser (the one that builds ParenExpr) was not found")
+    if not preds or not firsts:
+        return
+    n = 0
+    for g, cov in preds:
+        from ..cfg import reachable
+        for v in sorted(cov.primary_handled()):
+            tb = cov.arm_target(v)
+            if tb is None:
+                continue
+            region = reachable(g, tb, stop=[cov.primary.block])
+            # an arm that answers `true` at once: no further call (peek_ahead) in the arm
+            further = any(g.term(b)[KIND] == "call" for b in region)
+            n += 1
+            key = "pipe|%s" % v
+            if further or v not in firsts:
+                ck.ok(R, key, {"token": v, "expression_start": v in firsts, "further_lookahead": further})
+            else:
+                ck.bad(R, key, "%s accepts `| %s` as the continuation of a union type without looking further, but %s also starts an expression: `|x:float| (x + 1.0)` (an annotated parameter followed by a body that starts with that token) is read as the union type `float | (…)` and does not parse, while `|x| (x + 1.0)` does" % (g.short, v, v), g.where())
+    ck.floor(R, "continuation_tokens_examined", n, 5)
